@@ -222,6 +222,31 @@ func wrapFree(c *core.Ctx) []core.Obligation {
 			}
 		})
 	}
+	// (after round-7 seed C11-r7m2, `lastend.Next().Pos() != startLeaf.Pos()`) Pos() is the position of a cell along
+	// the curve WITHIN its face: it drops the three face bits. Two ids on different faces can have equal Pos(), so an
+	// equality test of two Pos() values says nothing about the ids being equal or adjacent.
+	for _, fn := range c.GeoFuncs() {
+		n := 0
+		core.AllInstrs(fn, func(in ssa.Instruction) {
+			bo, ok := in.(*ssa.BinOp)
+			if !ok || (bo.Op != token.EQL && bo.Op != token.NEQ) {
+				return
+			}
+			isPos := func(v ssa.Value) bool {
+				call, ok := core.StripConv(v).(*ssa.Call)
+				if !ok {
+					return false
+				}
+				f := core.StaticCallee(call)
+				return f != nil && f.Name() == "Pos" && f.Signature.Recv() != nil && core.IsNamed(f.Signature.Recv().Type(), "s2", "CellID")
+			}
+			if isPos(bo.X) && isPos(bo.Y) {
+				n++
+				obs = append(obs, core.Ob("R-RANGE", fmt.Sprintf("wrap-free:pos-equality:%s#%d", core.FuncName(fn), n), c.Pos(bo.Pos()), core.FuncName(fn), core.Violated,
+					"two cell ids are compared through Pos(), which drops the face: cells on different faces whose positions within their faces coincide compare equal, so ids that are far apart on the curve are taken for identical or contiguous"))
+			}
+		})
+	}
 	obs = append(obs, core.Ob("R-RANGE", "wrap-free:scan", "-", "", core.Discharged, fmt.Sprintf("no wrapping successor is used as a range bound or in an ordered comparison (%d calls of NextWrap/PrevWrap/AdvanceWrap in the library)", uses)))
 	return obs
 }
